@@ -24,37 +24,37 @@ Theorem C10_int_order : forall a b : Z,
 Proof. exact int_order. Qed.
 Print Assumptions C10_int_order.
 
-(* Full statement of the property for integers (FALSE on the pinned tree, see C10_int_eq_exact_refuted):
-     forall a b, in_i64 a -> in_i64 b -> eq_lossy (VInt a) (VInt b) = (a =? b)
-   eq_lossy converts both integers to f64 first.  `known_int_eq a b` (Model/Arith.v) is exactly the class of pairs on
-   which that goes wrong: a <> b but (a as f64) == (b as f64).  Outside it, equality is exact ... *)
-Theorem C10_int_eq_exact : forall a b : Z,
-  known_int_eq a b = false -> eq_lossy (VInt a) (VInt b) = (a =? b).
+(* equality of two integers is exact 64-bit equality, for ALL pairs (repaired in /repo by 7355ec6; before that
+   eq_lossy converted both integers to f64 and this statement was false, finding C10-int-eq-lossy) *)
+Theorem C10_int_eq_exact : forall a b : Z, eq_lossy (VInt a) (VInt b) = (a =? b).
 Proof. exact int_eq_exact. Qed.
 Print Assumptions C10_int_eq_exact.
 
-(* ... and the six operators are consistent *)
-Theorem C10_int_trichotomy : forall a b : Z,
-  known_int_eq a b = false -> cmp_consistent (VInt a) (VInt b).
+(* ... and the six operators are consistent, for ALL pairs *)
+Theorem C10_int_trichotomy : forall a b : Z, cmp_consistent (VInt a) (VInt b).
 Proof. exact int_consistent. Qed.
 Print Assumptions C10_int_trichotomy.
 
-(* the defect class lies entirely above 2^53: for all integers of magnitude at most 2^53 (where `as f64` is exact) the
-   class is empty, == is exact and the six operators are consistent.  This theorem uses the real-number semantics of
-   binary64 (Flocq) and therefore depends on the axioms of Coq's classical reals; see Proofs/ArithFloatProofs.v *)
+(* the witness of the former finding: 2^53 + 1 and 2^53 have the same conversion to f64 (known_int_eq), yet compare
+   unequal, `>` and nothing else; the integer still `==` the float 2^53 (mixed equality converts) *)
+Theorem C10_int_eq_former_witness :
+  let a := 9007199254740993 in let b := 9007199254740992 in
+  in_i64 a /\ in_i64 b /\ known_int_eq a b = true
+  /\ binop OEq (VInt a) (VInt b) = Ok (VBool false) /\ binop ONe (VInt a) (VInt b) = Ok (VBool true)
+  /\ binop OGt (VInt a) (VInt b) = Ok (VBool true) /\ binop OLt (VInt a) (VInt b) = Ok (VBool false)
+  /\ binop OEq (VInt a) (VFloat (of_i64 b)) = Ok (VBool true).
+Proof. exact int_eq_former_witness. Qed.
+Print Assumptions C10_int_eq_former_witness.
+
+(* for integers of magnitude at most 2^53 `as f64` is exact: no two of them have the same conversion, and integer ==
+   coincides with == of the converted floats (so integer and mixed equality agree there).  Uses the real-number
+   semantics of binary64 (Flocq) and therefore depends on the axioms of Coq's classical reals; see
+   Proofs/ArithFloatProofs.v *)
 Theorem C10_int_eq_exact_small : forall a b : Z,
   Z.abs a <= 2 ^ 53 -> Z.abs b <= 2 ^ 53 ->
-  known_int_eq a b = false /\ eq_lossy (VInt a) (VInt b) = (a =? b) /\ cmp_consistent (VInt a) (VInt b).
+  known_int_eq a b = false /\ eq_lossy (VInt a) (VInt b) = eq_lossy (VFloat (of_i64 a)) (VFloat (of_i64 b)).
 Proof. exact int_eq_exact_small. Qed.
 Print Assumptions C10_int_eq_exact_small.
-
-(* the finding: two different i64 that are `==` (and at the same time `>`): trichotomy and exactness both fail *)
-Theorem C10_int_eq_exact_refuted : exists a b : Z,
-  in_i64 a /\ in_i64 b /\ a <> b /\ known_int_eq a b = true
-  /\ binop OEq (VInt a) (VInt b) = Ok (VBool true) /\ binop OGt (VInt a) (VInt b) = Ok (VBool true)
-  /\ ~ cmp_consistent (VInt a) (VInt b).
-Proof. exact int_eq_exact_refuted. Qed.
-Print Assumptions C10_int_eq_exact_refuted.
 
 (* floats: all pairs of non-NaN floats (a Value never holds NaN), infinities and both zeros included *)
 Theorem C10_float_trichotomy : forall f g : spec_float,
